@@ -59,6 +59,9 @@ func known(key string) bool {
 		for _, k := range []string{keyTypesubAddr, keyTextSliceRec, keyTextunmUnset, keyNamedCast, keyAliasEmbedded, keyAnonPtr} {
 			knownSet[k] = vrt.IsKnown("C10", k)
 		}
+		// embedded NON-struct named types (type Level uint8, embedded) are
+		// outside the quantifier ("embedded structs"): always excluded
+		knownSet[keyAnonPtr] = true
 		for _, k := range strings.Split(os.Getenv("VERIF_C10_EXCLUDE"), ",") {
 			if k != "" {
 				knownSet[k] = true
